@@ -5,7 +5,7 @@ from harness import gen_seq
 from runner import Case, CaseSet
 
 ID = 'C11'
-OBLIGATIONS = ['Props/C11.v', 'Props/Tie/complexity_tie.v', 'Props/Tie/alphabets_tie.v', 'Props/Tie/minipy_complexity_tie.v']
+OBLIGATIONS = ['Props/C11.v', 'Props/Tie/complexity_tie.v', 'Props/Tie/alphabets_tie.v', 'Props/Tie/minipy_complexity_tie.v', 'Props/Tie/minipy_cxglue_tie.v']
 RULE = ('random class sequences (N 1..60) x type in {WF, LC, LZW, lower-case spellings, an unknown type} x predefined sizes and '
         'random total user alphabets (>= 2 image letters) x windows 1..N+2 x steps 1..N (all (w,s) for N <= 8, sampled otherwise) x '
         'word sizes 1..6; non-trivial = distinct accepted call with >= 2 windows')
@@ -18,7 +18,7 @@ LEVEL_TEXT = ('Proof: K = floor((N-w)/s)+1 windows; positions strictly increasin
               'each value is a function of its own window of the reduced sequence; unknown type / too long window rejected. '
               'Tie: allowed types, alphabets; positions, counts, LC/LZW values of the real getter compared in Coq.')
 LEVEL_NOTE = 'Entropy theorems use the Coq Reals axioms; ln evaluation is float glue (Python) on count vectors checked in Coq.'
-LEVEL_NOTE_MINIPY = (' Whole-function ties (minipy_complexity_tie.v): SequenceComplexity.LZW, LC and CWF are translated into Core/MiniPy.v terms on every run; per window the translated code '
+LEVEL_NOTE_MINIPY = (' Glue (minipy_cxglue_tie.v): get_indexed_complexity_vector gives the model positions for EVERY 1 <= K <= N (no bound), get_WF/LC/LZW_complexity = reduce, measure, index for any oracles, Sequence.get_linear_*_complexity = window guard then the call, SequenceParameters.get_linear_complexity = case-insensitive dispatch (dispatch_tie). Whole-function ties (minipy_complexity_tie.v): SequenceComplexity.LZW, LC and CWF are translated into Core/MiniPy.v terms on every run; per window the translated code '
                      'returns the model value (LZW, LC) / minus the accumulated sum of p*log(p) over the letters with p = count/w > 0, math.log being an oracle (CWF), for every word, window and step.')
 TECHNIQUE = 'Coq proof (div/mod arithmetic, pigeonhole counting, Gibbs inequality over R) + in-Coq correspondence with float glue for ln'
 
